@@ -344,14 +344,20 @@ namespace pika::split_detail {
             }
         }
 
-        friend void intrusive_ptr_add_ref(shared_state* p) { ++p->reference_count; }
+        friend void intrusive_ptr_add_ref(shared_state* p)
+        {
+            ++p->reference_count;
+            PIKA_VERIF_POST("sh.ref", p, static_cast<long>(p->reference_count), 0);
+        }
 
         friend void intrusive_ptr_release(shared_state* p)
         {
+            PIKA_VERIF_POST("sh.unref", p, static_cast<long>(p->reference_count) - 1, 0);
             if (--p->reference_count == 0)
             {
                 allocator_type other_alloc(p->alloc);
                 std::allocator_traits<allocator_type>::destroy(other_alloc, p);
+                PIKA_VERIF_POST("sh.free", p, 0, 0);
                 std::allocator_traits<allocator_type>::deallocate(other_alloc, p, 1);
             }
         }
